@@ -50,7 +50,9 @@ type fakeRT struct {
 	down     map[string][]downIv
 	latency  func(addr string, at time.Duration) time.Duration
 	pingLat  time.Duration
-	closed   int32
+	// refuseLat, if > 0, is how long a refused ping takes (a slow refusal)
+	refuseLat time.Duration
+	closed    int32
 }
 
 func (f *fakeRT) now() time.Duration { return time.Since(f.t0) }
@@ -148,7 +150,11 @@ func (f *fakeRT) Ping(addr string) error {
 		return rpc.ErrDial
 	}
 	if !ok {
-		time.Sleep(f.pingLat)
+		if f.refuseLat > 0 {
+			time.Sleep(f.refuseLat)
+		} else {
+			time.Sleep(f.pingLat)
+		}
 		return rpc.ErrDial
 	}
 	time.Sleep(f.pingLat)
@@ -482,7 +488,15 @@ func runPolicy(seed int64, idx int) *scen.Outcome {
 	c.Alpha = alpha
 	c.Tick = tick
 	c.DialTimeout = time.Second
-	c.Update(addrs...)
+	deadExtra := rng.Intn(3) == 0
+	if deadExtra {
+		// a configured target that never comes up: the live set stays stable,
+		// but the detector keeps re-checking it every tick
+		f.down["zz-dead"] = []downIv{{0, 1000 * time.Hour}}
+		c.Update(append(append([]string{}, addrs...), "zz-dead")...)
+	} else {
+		c.Update(addrs...)
+	}
 	// let the detector find every target
 	time.Sleep(250 * time.Millisecond)
 	synctest.Wait()
@@ -626,7 +640,7 @@ func runPolicy(seed int64, idx int) *scen.Outcome {
 		distinct[a] = true
 	}
 	out.Stats["max_distinct_targets_used"] = int64(len(distinct))
-	out.Sig = fmt.Sprintf("policy/%d/n=%d/alpha=%v/tick=%v/profile=%d/spacing=%v/refuser=%v/%s", policy, n, alpha, tick, profile, spacing, refuser != "", svc.SumHex([]byte(strings.Join(seq, ""))))
+	out.Sig = fmt.Sprintf("policy/%d/n=%d/alpha=%v/tick=%v/profile=%d/spacing=%v/refuser=%v/dead=%v/%s", policy, n, alpha, tick, profile, spacing, refuser != "", deadExtra, svc.SumHex([]byte(strings.Join(seq, ""))))
 	out.Nontrivial = len(seq) > n
 	return out
 }
@@ -668,6 +682,7 @@ func runFailover(seed int64, idx int) *scen.Outcome {
 	}
 	desc := fmt.Sprintf("variant=%s targets=%d DialTimeout=%v pingLatency=%v", variant, n, dialTO, f.pingLat)
 	var upAt time.Duration = -1
+	sleeper := "" // failover variant: a target that is down from the start
 	switch variant {
 	case "waiters", "close", "fallback":
 		if variant != "fallback" {
@@ -681,6 +696,10 @@ func runFailover(seed int64, idx int) *scen.Outcome {
 			}
 		}
 	case "failover":
+		if n >= 3 && rng.Intn(2) == 0 {
+			sleeper = addrs[rng.Intn(n)]
+			f.down[sleeper] = []downIv{{0, time.Hour}}
+		}
 	}
 	c := rpc.NewClient(nil)
 	c.Transport = f
@@ -784,12 +803,25 @@ func runFailover(seed int64, idx int) *scen.Outcome {
 		// everybody healthy; one target starts refusing at T and recovers later; a steady sequential caller
 		time.Sleep(250 * time.Millisecond)
 		victim := addrs[rnd(n)]
+		for victim == sleeper {
+			victim = addrs[rnd(n)]
+		}
 		failFrom := f.now() + time.Duration(50+rnd(300))*time.Millisecond
 		failTo := failFrom + time.Duration(300+rnd(1500))*time.Millisecond
 		f.mu.Lock()
 		f.down[victim] = []downIv{{failFrom, failTo}}
 		f.mu.Unlock()
 		desc += fmt.Sprintf(" victim=%s refuses [%v,%v)", victim, failFrom, failTo)
+		if sleeper != "" {
+			// the target that was down from the start recovers just when the
+			// victim goes down, and its (fast) check completes before the
+			// victim's slow refusal: the live set changes but keeps its size
+			f.mu.Lock()
+			f.down[sleeper] = []downIv{{0, failFrom + time.Duration(rnd(40))*time.Millisecond}}
+			f.refuseLat = 60 * time.Millisecond
+			f.mu.Unlock()
+			desc += " swap-in=" + sleeper
+		}
 		spawn(func() {
 			for f.now() < failTo+1500*time.Millisecond {
 				// user Pings carry no token and cannot be told from detector
@@ -814,7 +846,7 @@ func runFailover(seed int64, idx int) *scen.Outcome {
 				if firstFail < 0 {
 					firstFail = a.at
 				}
-				if a.at > firstFail+2*tickD+f.pingLat+time.Millisecond {
+				if a.at > firstFail+2*tickD+f.pingLat+f.refuseLat+time.Millisecond {
 					lateRoutes++
 				}
 			}
@@ -828,6 +860,17 @@ func runFailover(seed int64, idx int) *scen.Outcome {
 		}
 		if !usedAfterRecovery {
 			bad("C18/failover/recovery", fmt.Sprintf("the recovered target received no user call in the 1.5 s after it came back (%s)", desc))
+		}
+		if strings.Contains(desc, "swap-in=") {
+			used := false
+			for _, a := range arr {
+				if a.token != 0 && a.addr == sleeper && a.at > failFrom {
+					used = true
+				}
+			}
+			if !used {
+				bad("C18/failover/recovery-swap", fmt.Sprintf("target %s recovered while %s went down, but received no user call in the following %v (%s)", sleeper, victim, failTo+1500*time.Millisecond-failFrom, desc))
+			}
 		}
 		for _, fc := range calls {
 			if fc.err != nil && fc.err != rpc.ErrDial {
